@@ -24,6 +24,8 @@ func main() {
 		devCorpus()
 	case "enum":
 		devEnum()
+	case "c27":
+		devC27()
 	default:
 		if !dispatch(os.Args[1], os.Args[2:]) {
 			fmt.Fprintln(os.Stderr, "unknown command", os.Args[1])
